@@ -214,4 +214,23 @@ theorem fromType_walkable_c (c : Code) (o : Options) (ty : Ty) (hw : walkable o 
     simp only [hb, hb', if_true, if_false]
     exact AgreeC.fail .budget
 
+/-- the documented error (the right column of `SameClass`) a message of the crate belongs to, by its fixed beginning —
+executable, for the correspondence driver (string operations do not reduce in the kernel, so the theorems use the table
+`SameClass` and the driver checks on every failing case that this function sends the model's message to the error of
+`Spec.fromTypeSpec`) -/
+def documentedError (m : String) : String :=
+  if m.startsWith "Could not determine schema from the type after" then "budget"
+  else if m.startsWith "Overwritten fields could not be found" then "unknown overwrite path"
+  else if m.startsWith "Invalid name for overwritten field" then "overwrite with a different name"
+  else if m.startsWith "Encountered null only field" then "null field"
+  else if m.startsWith "Encountered enums without data" then "enum without data"
+  else if m.startsWith "out of range integral type conversion attempted" then "more than 128 variants"
+  else if m.startsWith "The root type cannot be nullable" then "the root cannot be nullable"
+  else if m.startsWith "No records found to determine schema" then "the root must be a struct"
+  else if m.startsWith "Schema tracing is not directly supported for the root data type" then "the root must be a struct"
+  else if m.startsWith "Too deeply nested type detected" then "not traceable from the type"
+  else if m.startsWith "Cannot trace maps as structs with `from_type`" then "not traceable from the type"
+  else if m.startsWith "Invalid variant index" then "not traceable from the type"
+  else "other"
+
 end SaModel.Lemmas.C08
